@@ -288,6 +288,9 @@ def sync_errors(ctx: Ctx, rule: str) -> None:
 
 def run(ctx: Ctx) -> None:
     ctx.call(wait_budget, "14")
+    # is_occupied is built on is_started: a started/finished mix-up makes a worker bounce off its own finished nodes for ever
+    ctx.call(T.t_s1, "18/T.S1")
+    ctx.call(T.t_s1c, "18c/T.S1c")
     from . import graphrules as GR2
 
     ctx.call(GR2.object_root_value, "17")
